@@ -25,7 +25,11 @@ class FlatMapFuture(MapFuture):
             )
 
         self.__flattened = True
+        # From now on we only mirror the future we were given: neither
+        # function applies to its outcome (in particular, error_fn handles
+        # a failure of the original future, not of the flattened one).
         self._map_fn = lambda x: x
+        self._error_fn = None
         self._set_delegate(result)
 
 
